@@ -634,3 +634,9 @@ PROPS['C14']['floor'] = {'quick': 41, 'thorough': 41}
 PROPS['C15']['floor'] = {'quick': 18, 'thorough': 18}
 PROPS['C16']['floor'] = {'quick': 33, 'thorough': 33}
 PROPS['C17']['floor'] = {'quick': 173, 'thorough': 173}
+
+# C06: the sampler reads the hash recorded in the weight table; an update of a weight must leave key and hash alone
+PROPS['C06']['kani']['quick'] = PROPS['C06']['kani']['quick'] + ['cw/update_outside_region_n2']
+PROPS['C06']['kani_meta'].update(BND(['cw/update_outside_region_n2']))
+PROPS['C06']['verus_only']['weights'] = PROPS['C06']['verus_only']['weights'] + [r'CacheWeight::update$']
+PROPS['C06']['floor'] = {'quick': 34, 'thorough': 34}
